@@ -87,6 +87,7 @@ var addrs = map[string]netip.Addr{
 	"v4a":  netip.MustParseAddr("10.0.0.1"),
 	"v4b":  netip.MustParseAddr("10.0.0.2"),
 	"v4c":  netip.MustParseAddr("192.168.1.77"),
+	"v6m":  netip.MustParseAddr("::ffff:10.0.0.1"),
 	"v6a":  netip.MustParseAddr("2001:db8::1"),
 	"v6b":  netip.MustParseAddr("2001:db8::2"),
 	"v6c":  netip.MustParseAddr("fe80::1234:5678"),
